@@ -14,9 +14,10 @@ pub(super) fn index_for_rcurrent(
 ) -> Result<u32, std::io::Error> {
     // we believe what we get - but if we get nothing, we determine what's next
     // according to the filesystem
-    let mut index_for_rcurrent = o_index_for_rcurrent
-        .or_else(|| get_highest_index(&config.file_spec).map(|idx| idx + 1))
-        .unwrap_or(0);
+    let mut index_for_rcurrent = match o_index_for_rcurrent {
+        Some(index) => index,
+        None => get_highest_index(&config.file_spec)?.map_or(0, |idx| idx + 1),
+    };
 
     if rotate_rcurrent {
         #[cfg(feature = "verif_hooks")]
@@ -48,11 +49,18 @@ pub(super) fn index_for_rcurrent(
     Ok(index_for_rcurrent)
 }
 
-pub(super) fn get_highest_index(file_spec: &FileSpec) -> Option<u32> {
+// (fails if the directory cannot be listed: an index that is too low would be used otherwise,
+// and an existing file would be replaced)
+pub(super) fn get_highest_index(file_spec: &FileSpec) -> Result<Option<u32>, std::io::Error> {
     let mut o_highest_idx = None;
-    for file in
-        super::list_and_cleanup::list_of_log_and_compressed_files(file_spec, &InfixFilter::Numbrs)
-    {
+    let related_files = file_spec.try_read_dir_related_files()?;
+    let mut files = file_spec.filter_files(
+        &related_files,
+        &InfixFilter::Numbrs,
+        file_spec.get_suffix().as_deref(),
+    );
+    files.append(&mut file_spec.filter_files(&related_files, &InfixFilter::Numbrs, Some("gz")));
+    for file in files {
         // without suffix, a dot belongs to the name, it does not separate an extension
         let name = if file_spec.get_suffix().is_some() {
             file.file_stem()
@@ -82,5 +90,5 @@ pub(super) fn get_highest_index(file_spec: &FileSpec) -> Option<u32> {
             Some(prev) => Some(max(prev, idx)),
         };
     }
-    o_highest_idx
+    Ok(o_highest_idx)
 }
